@@ -21,7 +21,7 @@ pub fn gen_frame(cx: &Cx) -> Frame<'static> {
         _ => cx.draw(20) as usize,
     };
     let ty = if cx.chance(1, 2) { cx.draw(7) as u8 } else { cx.draw(256) as u8 };
-    Frame::new(gens::address(cx), MsgType(ty), gens::data(cx.bytes(len)))
+    Frame::new(gens::address(cx), MsgType(ty), gens::data(gens::payload(cx, len)))
 }
 
 fn err_kind(e: &FrameError) -> &'static str {
@@ -38,7 +38,9 @@ fn err_kind(e: &FrameError) -> &'static str {
 fn same_result(a: &Result<Frame<'_>, FrameError>, b: &Result<Frame<'_>, FrameError>) -> bool {
     match (a, b) {
         (Ok(x), Ok(y)) => x == y,
-        (Err(x), Err(y)) => err_kind(x) == err_kind(y),
+        // "the result equals decoding that line": a decoding error carries what it refused (the
+        // line, the lengths, the checksums), so it is compared as a value, not only by kind
+        (Err(x), Err(y)) => err_kind(x) == err_kind(y) && (matches!(x, FrameError::Io { .. }) || format!("{x:?}") == format!("{y:?}")),
         _ => false,
     }
 }
@@ -46,7 +48,11 @@ fn same_result(a: &Result<Frame<'_>, FrameError>, b: &Result<Frame<'_>, FrameErr
 fn show_result(r: &Result<Frame<'_>, FrameError>) -> String {
     match r {
         Ok(f) => format!("Ok(addr={:#06x}, type={}, {} data bytes)", f.address().0, f.message_type().0, f.data().len()),
-        Err(e) => format!("Err({})", err_kind(e)),
+        Err(e @ FrameError::Io { .. }) => format!("Err({})", err_kind(e)),
+        Err(e) => {
+            let d = format!("{e:?}");
+            format!("Err({})", if d.len() > 160 { format!("{}.. [{} chars]", &d[..160], d.len()) } else { d })
+        }
     }
 }
 
